@@ -117,7 +117,8 @@ def check(run):
     st = fx.fn1(U + '::send_to_impl')
     run.touch(st)
     fw = [c for c in st.calls() if q.callee_name(c) == 'sim::forward_packet'] + [c for c in st.calls() if (q.callee_name(c) or '').endswith('pcap::log_udp')]
-    mtud = [v for n in st.all_nodes() if n['k'] == 'decl' for v in n['vars'] if v.get('name') == 'mtu']
+    q.alias_local(st, 'mtu', init_re=r'get_path_mtu\(')       # whatever the local is called
+    mtud = [v for v in [q.local_var(st, 'mtu')] if v]
     if not mtud:
         run.broke('send_to_impl: local mtu not found (renamed?)')
     run.check(not mtud or q.render(st, mtud[0]['init']) == 'm_io_service.get_path_mtu(m_bound_to.address(), dst.address())', 'R4', 'df-mtu-source', st.norm, st.loc(),
@@ -130,11 +131,19 @@ def check(run):
         txt = [(q.render(st, a), p) for a, p in cj]
         has_df = ('m_dont_fragment', True) in txt
         cmpa = [q.cmp_atom(a) for a, p in cj if q.cmp_atom(a) and p]
-        form = len(cj) == 2 and has_df and len(cmpa) == 1 and cmpa[0][0] == '>' and q.linform(st, cmpa[0][1]) == ({'ret': 1}, 0) and q.render(st, cmpa[0][2]) == 'mtu'
-        run.check(form, 'R5', 'df-test', st.norm, st.loc(n), 'the don\'t-fragment test is %s, not m_dont_fragment && total > mtu (a datagram of exactly the MTU must pass; one larger must not)' % q.render(st, n['cond']), 'm_dont_fragment && int(ret) > mtu')
+        # the size compared with the MTU is the datagram's total size: the very local the function returns as "bytes sent"
+        lhs = q.linform(st, cmpa[0][1], q.const_local_subst(st)) if len(cmpa) == 1 else None
+        total = list(lhs[0])[0] if lhs and len(lhs[0]) == 1 and lhs[1] == 0 and list(lhs[0].values()) == [1] else None
+        final = [q.render(st, r_['e']) for r_ in q.returns(st) if r_.get('e') is not None and not any(y is r_ for y in walk(n['then']))]
+        form = len(cj) == 2 and has_df and len(cmpa) == 1 and cmpa[0][0] == '>' and total is not None and total in final and q.render(st, cmpa[0][2]) == 'mtu'
+        run.check(form, 'R5', 'df-test', st.norm, st.loc(n), 'the don\'t-fragment test is %s, not m_dont_fragment && total > mtu (a datagram of exactly the MTU must pass; one larger must not)' % q.render(st, n['cond']), 'm_dont_fragment && int(total) > mtu')
         rets = [x for x in walk(n['then']) if x['k'] == 'return']
-        okr = len(rets) == 1 and q.render(st, rets[0].get('e')) == 'ret' and any(x['k'] == 'call' and (x.get('callee') or '').endswith('error_code::clear') for x in walk(n['then']))
-        run.check(okr, 'R4', 'df-discard-reports-sent', st.norm, st.loc(n), 'the discarded datagram is not reported as sent (return ret with ec cleared)', 'returns the full size with ec cleared')
+        # reported as sent: returns the total with ec clear - cleared in the branch, or cleared earlier with no assignment of an error reaching this return
+        clears = [x for x in st.all_nodes() if x['k'] == 'call' and (x.get('callee') or '').endswith('error_code::clear') and q.render(st, x.get('obj')) == 'ec']
+        ecw = [x for x in st.all_nodes() if x['k'] == 'call' and x.get('opc') == '=' and x.get('args') and q.render(st, x['args'][0]) == 'ec']
+        ec_clear = bool(rets) and any(q.precedes(st, c_, rets[0]) for c_ in clears) and not any(st.cfg._reaches(st.cfg.node_block(w_), st.cfg.node_block(rets[0])) and not any(q.precedes(st, w_, c_) and q.precedes(st, c_, rets[0]) for c_ in clears) for w_ in ecw)
+        okr = len(rets) == 1 and total is not None and q.render(st, rets[0].get('e')) == total and ec_clear
+        run.check(okr, 'R4', 'df-discard-reports-sent', st.norm, st.loc(n), 'the discarded datagram is not reported as sent (return the total size with ec cleared)', 'returns the full size with ec cleared')
         tb = st.cfg.node_block(rets[0]) if rets else None
         run.check(tb is not None and not any(st.cfg.node_block(w) in (st.cfg.reach_from(tb) | {tb}) for w in fw), 'R4', 'df-discard-silent', st.norm, st.loc(n), 'the discarded datagram can still reach capture or wire', 'never reaches log_udp / forward_packet')
         for w in fw:
